@@ -245,7 +245,11 @@ fn cmd_replay(args: &[String]) {
     let sub: u64 = arg(args, "--sub").unwrap_or("0").parse().unwrap();
     let o = if let Some(d) = arg(args, "--decisions") {
         let v: Vec<u32> = d.split(',').filter(|s| !s.is_empty()).map(|s| s.parse().unwrap()).collect();
-        let p = engine_a::profile(prop, thorough);
+        let mut p = engine_a::profile(prop, thorough);
+        if let Some(sh) = arg(args, "--shape") {
+            let f: Vec<&str> = sh.split('/').collect();
+            p.force_shape = Some((Fam::from_name(f[0]).expect("family"), Cont::from_name(f[1]).expect("container"), f[2].parse().expect("n")));
+        }
         reset(Src::Script { v, pos: 0 }, true);
         engine_a::run(&p, true)
     } else if prop == "ALLK" {
@@ -295,54 +299,69 @@ fn cmd_replay(args: &[String]) {
     }
 }
 
-/// Small-scope systematic sweep: depth-first enumeration of the decision vector (stateless search).
+/// Small-scope systematic sweep: for every flat shape (7 families x 3 containers x n <= 2 [3 with --max-n 3]) a
+/// depth-first enumeration of the whole decision vector (scripts of every child, then every scheduling choice of
+/// the executor). Stateless search: each vector is one execution; `budget` caps the executions per shape and the
+/// summary says for how many shapes the space was exhausted.
 fn cmd_dfs(args: &[String]) {
     let prop = arg(args, "--prop").expect("--prop");
     let budget: u64 = arg(args, "--budget").unwrap_or("100000").parse().unwrap();
+    let max_n: usize = arg(args, "--max-n").unwrap_or("2").parse().unwrap();
     let out = arg(args, "--out");
     let (si, sn) = {
         let s = arg(args, "--shard").unwrap_or("0/1");
         let mut it = s.split('/');
         (it.next().unwrap().parse::<u64>().unwrap(), it.next().unwrap().parse::<u64>().unwrap())
     };
-    let p = engine_a::profile("SMALL", false);
     let t0 = std::time::Instant::now();
     let mut acc = Acc::new();
-    // the first decisions pick the shape; shards split the space on the first decision values
-    let mut prefix: Vec<u32> = vec![];
-    let mut exhausted = false;
-    let mut n = 0u64;
-    let mut idx = 0u64;
-    loop {
-        reset(Src::Script { v: prefix.clone(), pos: 0 }, true);
-        let o = engine_a::run(&p, true);
-        let (taken, arities) = (o.decisions.clone(), o.arities.clone());
-        let mine = idx % sn == si;
-        idx += 1;
-        if mine {
-            n += 1;
-            let replay = format!("replay --engine A --profile SMALL --decisions {}", taken.iter().map(|d| d.to_string()).collect::<Vec<_>>().join(","));
-            absorb(&mut acc, prop, "A-dfs", o, replay);
+    let mut shapes = engine_a::small_shapes(max_n);
+    if let Some(f) = arg(args, "--fams") {
+        shapes.retain(|s| f.split(',').any(|x| x == s.0.name()));
+    }
+    let (mut nshapes, mut nexhausted) = (0u64, 0u64);
+    let mut per_shape: Vec<String> = vec![];
+    for (k, sh) in shapes.iter().enumerate() {
+        if k as u64 % sn != si {
+            continue;
         }
-        // next decision vector in depth-first order
-        let mut k = taken.len();
-        let mut next = taken;
+        let mut p = engine_a::profile(if max_n >= 3 { "SMALL3" } else { "SMALL" }, false);
+        p.force_shape = Some(*sh);
+        nshapes += 1;
+        let mut prefix: Vec<u32> = vec![];
+        let mut exhausted = false;
+        let mut n = 0u64;
         loop {
-            if k == 0 {
-                exhausted = true;
+            reset(Src::Script { v: prefix.clone(), pos: 0 }, true);
+            let o = engine_a::run(&p, true);
+            let (taken, arities) = (o.decisions.clone(), o.arities.clone());
+            n += 1;
+            let replay = format!("replay --engine A --profile {} --shape {}/{}/{} --decisions {}", if max_n >= 3 { "SMALL3" } else { "SMALL" }, sh.0.name(), sh.1.name(), sh.2, taken.iter().map(|d| d.to_string()).collect::<Vec<_>>().join(","));
+            absorb(&mut acc, prop, "A-dfs", o, replay);
+            // next decision vector in depth-first order
+            let mut k = taken.len();
+            let mut next = taken;
+            loop {
+                if k == 0 {
+                    exhausted = true;
+                    break;
+                }
+                k -= 1;
+                if next[k] + 1 < arities[k] {
+                    next[k] += 1;
+                    next.truncate(k + 1);
+                    break;
+                }
+            }
+            if exhausted || n >= budget {
                 break;
             }
-            k -= 1;
-            if next[k] + 1 < arities[k] {
-                next[k] += 1;
-                next.truncate(k + 1);
-                break;
-            }
+            prefix = next;
         }
-        if exhausted || n >= budget {
-            break;
+        if exhausted {
+            nexhausted += 1;
         }
-        prefix = next;
+        per_shape.push(format!("{}:{{\"executions\":{},\"exhausted\":{}}}", jstr(&format!("{}/{}/{}", sh.0.name(), sh.1.name(), sh.2)), n, exhausted));
     }
     let wall = t0.elapsed().as_secs_f64();
     if let Some(pth) = out {
@@ -350,7 +369,7 @@ fn cmd_dfs(args: &[String]) {
             write_sigs(&format!("{pth}.sigs"), &acc.sigs);
         }
     }
-    let s = summary_json(&acc, prop, "dfs", 0, (si, sn), wall, &format!(",\"dfs_exhausted\":{exhausted}"));
+    let s = summary_json(&acc, prop, "dfs", 0, (si, sn), wall, &format!(",\"dfs_shapes\":{nshapes},\"dfs_shapes_exhausted\":{nexhausted},\"dfs_exhausted\":{},\"dfs_per_shape\":{{{}}}", nshapes == nexhausted, per_shape.join(",")));
     write_out(out, &s);
 }
 
